@@ -50,8 +50,8 @@ def split_sessions(steps):
 
 def slot_state(obs):
     """{slot: (next, range)} of the active descriptors from the adapter's projection"""
-    by_id = {d["id"]: d for d in obs["desc"]}
-    return {slot: (by_id[i]["next"], by_id[i]["range"]) for slot, i in obs["active"].items() if i in by_id}
+    by_id = {d["id"]: d for d in obs.get("desc", [])}
+    return {slot: (by_id[i]["next"], by_id[i]["range"]) for slot, i in obs.get("active", {}).items() if i in by_id}
 
 
 def run_chain(ctx, binary, bi, beh, quick, stride):
@@ -66,6 +66,10 @@ def run_chain(ctx, binary, bi, beh, quick, stride):
         sess = W.Session(ctx, binary, dict(keypool=KEYPOOL, steps=[op for _, op in ops]), tag, image_rel=image)
         ctx.log("%s: session done (%d syscalls)" % (tag, len(sess.calls)))
         try:
+            if sess.abort and "step" in sess.abort:
+                lines.append(dict(act=["session", bi, si], where="the process aborted inside step %s %s" % (sess.abort["step"], sess.abort.get("action")), load="aborted: " + sess.abort.get("why", "")[-80:],
+                                  addrs=prev_addrs, pairs=prev_pairs, failed=0))
+                break
             if sess.out["load"] != "ok":
                 lines.append(dict(act=["session", bi, si], where="start of session %d" % si, load=sess.out["load"], addrs=prev_addrs, pairs=prev_pairs, failed=0))
                 break
